@@ -133,7 +133,10 @@ def second_instance_binary(ctx, corr_broken):
         return
     d = os.path.join(ctx.work, "second_dp")
     os.makedirs(d, exist_ok=True)
-    args = [binp, "--data-path", d, "--tcp-address=127.0.0.1:0", "--http-address=127.0.0.1:0"]
+    # a loopback address private to this run (not 127.0.0.1: a client of another check that still reconnects to a recycled
+    # 127.0.0.1 port must not reach this daemon; see vfMetaLoop in harness/meta/meta_test.go)
+    lo = "127.%d.%d.%d:0" % (1 + (os.getpid() >> 16) % 250, (os.getpid() >> 8) & 255, 1 + os.getpid() % 254)
+    args = [binp, "--data-path", d, "--tcp-address=" + lo, "--http-address=" + lo]
     logs = [open(os.path.join(ctx.work, "nsqd%d.log" % i), "w+") for i in (1, 2, 3)]
 
     def wait_dat(p):
